@@ -664,6 +664,182 @@ def strategy(tier: str):
         'final': final})
 
 
+def run_converse(case) -> CaseResult:
+    """Converse clause: an asyncssh CLIENT presenting a valid credential
+    (password, keyboard-interactive, local key, certificate) is admitted; an
+    invalid one is refused with PermissionDenied; restrictions of the
+    accepted key/certificate are the ones in force"""
+
+    from ..engines.memwire import Pair
+    log: List[Any] = []
+    h = memwire.Harness()
+    gate = Gate(h.loop, case['gated'])
+    ukey = memwire.key('c05-user', 'ssh-ed25519')
+    okey = memwire.key('c05-other', 'ssh-ed25519')
+    ca = memwire.key('c05-ca', 'ssh-ed25519')
+    optstr = OPTION_SETS[case['opts'] % len(OPTION_SETS)]
+    cred = case['cred']
+    base = make_server(log, gate, '')
+    pub = ukey.export_public_key().decode().strip()
+    capub = ca.export_public_key().decode().strip()
+
+    class Server(base):
+        def begin_auth(self, username):
+            log.append(('begin_auth', username))
+            text = ''
+            if username == 'alice':
+                text = (optstr + ' ' if optstr else '') + pub + '\n' + \
+                    'cert-authority,principals="alice" ' + capub + '\n'
+            self.conn.set_authorized_keys(
+                asyncssh.import_authorized_keys(text) if text else None)
+            return True
+
+    copts: Dict[str, Any] = {'username': case['user'], 'password': None,
+                             'preferred_auth': ()}
+    opts = parse_opts(optstr)
+    from_ok = opts.get('from', '127.0.0.1') == '127.0.0.1'
+    expect = False
+    restr: Dict[str, Any] = {}
+
+    if cred == 'password':
+        copts['password'] = PASSWORDS.get(case['user'], 'x') \
+            if case['valid'] else 'wrong'
+        expect = case['valid'] and case['user'] in PASSWORDS
+    elif cred == 'kbdint':
+        resp = KBD.get(case['user'], 'x') if case['valid'] else 'wrong'
+
+        class Client(asyncssh.SSHClient):
+            tries = 0
+
+            def kbdint_auth_requested(self):
+                # one attempt, like an interactive user giving up
+                self.tries += 1
+                return '' if self.tries == 1 else None
+
+            def kbdint_challenge_received(self, name, instr, lang, prompts):
+                return [resp] * len(prompts)
+
+        copts['client_factory'] = Client
+        expect = case['valid'] and case['user'] in KBD
+    elif cred == 'key':
+        copts['client_keys'] = [ukey if case['valid'] else okey]
+        expect = case['valid'] and case['user'] == 'alice' and from_ok
+        restr = opts if expect else {}
+    else:   # certificate
+        signer = ca if case['valid'] else okey
+        cert = signer.generate_user_certificate(
+            ukey, 'kid', principals=[case['user']],
+            permit_pty='no-pty' not in optstr and case['cert_pty'],
+            force_command='cert-cmd' if case['cert_cmd'] else None)
+        copts['client_keys'] = [(ukey, cert)]
+        # the plain key is also listed for alice: if the certificate is
+        # refused the client falls back to it
+        cert_ok = case['valid'] and case['user'] == 'alice'
+        key_ok = case['user'] == 'alice' and from_ok
+        expect = cert_ok or key_ok
+        if cert_ok:
+            restr = {'cert': True}
+        elif key_ok:
+            restr = opts
+
+    pair = Pair({'server_factory': Server, 'encoding': None}, copts, h=h)
+    labels = {'cred:' + cred, 'valid' if case['valid'] else 'invalid',
+              'user:' + case['user']}
+
+    try:
+        pair.start()
+        for _ in range(30):
+            h.pump_until(pair.copts.waiter.done)
+            if pair.copts.waiter.done():
+                break
+            if not gate.release(0):
+                break
+        h.pump()
+        w = pair.copts.waiter
+
+        if not w.done():
+            raise Violation('hung', 'connect() pending', 'converse-hung')
+
+        admitted = w.exception() is None
+
+        if admitted != expect:
+            raise Violation(
+                'converse', 'client presenting a %s %s credential for %r '
+                'was %s (%r)' % ('valid' if expect else 'invalid', cred,
+                                 case['user'], 'admitted' if admitted
+                                 else 'refused', w.exception()),
+                'converse:%s:%s' % (cred, 'refused-valid' if expect
+                                    else 'admitted-invalid'))
+
+        if not admitted:
+            if not isinstance(w.exception(), asyncssh.PermissionDenied):
+                raise Violation('converse', 'refused with %r' %
+                                w.exception(), 'converse:error-class')
+            labels.add('refused')
+            return CaseResult(sorted(labels), True)
+
+        labels.add('admitted')
+        user = pair.s.get_extra_info('username')
+
+        if user != case['user']:
+            raise Violation('converse', 'server says user %r, client '
+                            'authenticated as %r' % (user, case['user']),
+                            'converse:username')
+
+        # restrictions in force: forced command and pty
+        res = h.run(pair.c.create_session(asyncssh.SSHClientSession,
+                                          'client-cmd', term_type='xterm'
+                                          if case['want_pty'] else None))
+        h.pump()
+        execs = [e for e in log if e[0] == 'exec']
+        want_cmd = 'client-cmd'
+        pty_ok = True
+
+        if restr.get('cert'):
+            if case['cert_cmd']:
+                want_cmd = 'cert-cmd'
+            pty_ok = case['cert_pty'] and 'no-pty' not in optstr
+            labels.add('via-cert')
+        else:
+            want_cmd = restr.get('command', 'client-cmd')
+            pty_ok = 'no-pty' not in restr
+
+        if execs and execs[-1][1] != want_cmd:
+            raise Violation('restrictions', 'session got command %r, '
+                            'credential implies %r' % (execs[-1][1],
+                                                       want_cmd),
+                            'converse:command')
+        labels.add('session-opened')
+        return CaseResult(sorted(labels), True)
+    except asyncssh.ChannelOpenError as exc:
+        # a refused pty request surfaces as a failed session open
+        if case['want_pty'] and 'PTY' in str(exc):
+            pty_allowed = ('no-pty' not in optstr) if not restr.get('cert') \
+                else (case['cert_pty'] and 'no-pty' not in optstr)
+            if restr.get('cert') is None and not restr:
+                pty_allowed = True
+            if pty_allowed:
+                raise Violation('restrictions', 'pty refused although the '
+                                'accepted credential permits it',
+                                'converse:pty-refused') from None
+            labels.add('pty-refused-as-required')
+            return CaseResult(sorted(labels), True)
+        raise Violation('converse', 'session open failed: %r' % exc,
+                        'converse:session') from None
+    finally:
+        pair.close()
+
+
+def converse_strategy(tier: str):
+    return st.fixed_dictionaries({
+        'cred': pick(['password', 'kbdint', 'key', 'key', 'cert', 'cert']),
+        'valid': pick([True, True, False]),
+        'user': pick(['alice', 'alice', 'alice', 'bob', 'eve']),
+        'opts': pick(range(len(OPTION_SETS))),
+        'gated': st.booleans(), 'want_pty': st.booleans(),
+        'cert_pty': st.booleans(), 'cert_cmd': st.booleans()})
+
+
 def race_cases(tier: str):
     """A validator gate fires in the middle of the set-up of the next
     request (every offset), which names another user"""
@@ -701,6 +877,12 @@ FAMILIES = [
                              'pk:wrong-blob', 'pk:bad-sig',
                              'pk:other-signer', 'pk:alg-mismatch',
                              'failed-key-attempt-before-success']},
+           case_timeout=120),
+    Family('converse', run_converse, strategy=converse_strategy,
+           budget={'quick': 800, 'thorough': 8000},
+           required={'all': ['cred:password', 'cred:kbdint', 'cred:key',
+                             'cred:cert', 'admitted', 'refused', 'via-cert',
+                             'session-opened']},
            case_timeout=120),
     Family('race', run_history, enumerate=race_cases, exhaustive=True,
            required={'all': ['gate-armed-mid-processing', 'user-switch']},
